@@ -139,7 +139,8 @@ def plan(tier):
         DOCS = corpus.docs(3, (None, 1000, "a"), ("a", "b"))
     else:
         DOCS = corpus.docs(4, (None, 1000, "a"), ("a", "b"))
-    DOCS = DOCS + corpus.collision_pack() + mixed_pack()
+    DOCS = DOCS + corpus.collision_pack() + mixed_pack() + \
+        corpus.merge_pack()
     voc = vocab()
     plist = [(s,) for s in voc]
     for nav in NAV:
